@@ -46,6 +46,8 @@ def op_call(op, nr=None, kind="client"):
         return (K1, b"6", b"1"), kw
     if op == "set_many":
         return (dict(list({K1: b"1", K2: b"2", K3: b"3"}.items())[:NKEYS]),), kw
+    if op == "set_many_twin":        # one wire key under two spellings in one batch: two commands, two replies
+        return ({K1: b"1", K1.encode(): b"2", K2: b"3"},), kw
     if op == "get":
         return (K1,), ({"default": "DFLT"} if USE_DEFAULTS else {})
     if op == "gets":
@@ -84,7 +86,7 @@ ALL_OPS = [  # (op, noreply variants)
     ("get_many", (None,)), ("gets_many", (None,)), ("delete", (None, False)), ("delete_many", (None, False)),
     ("incr", (None, True)), ("decr", (None, True)), ("touch", (None, False)), ("flush_all", (None, False)),
     ("version", (None,)), ("stats", (None,)), ("raw_command", (None,)), ("cache_memlimit", (None,)),
-    ("quit", (None,)), ("flush_all_delay", (None, False)),
+    ("quit", (None,)), ("flush_all_delay", (None, False)), ("set_many_twin", (None, False)),
 ]
 
 
@@ -161,6 +163,8 @@ class Stack:
             args, kw = (), {}
         elif op == "flush_all_delay":
             args, kw = op_call("flush_all", nr, self.cfg.kind)
+        elif op == "set_many_twin":
+            args, kw = op_call("set_many_twin", nr, self.cfg.kind)
         else:
             args, kw = op_call(op, nr, self.cfg.kind)
         try:
@@ -170,6 +174,8 @@ class Stack:
                 val = self.client["absent-key"]                  # KeyError for a plain miss
             elif op == "flush_all_delay":
                 val = self.client.flush_all(delay=30, **kw)
+            elif op == "set_many_twin":
+                val = self.client.set_many(*args, **kw)
             else:
                 val = getattr(self.client, op)(*args, **kw)
         except BaseException as exc:   # noqa: B902 -- the harness must see interrupts too
